@@ -86,3 +86,133 @@ def rel_err_cols(x, y):
     """max over entries of |x - y| relative to the max-norm of the column (Q, C, n) -> (Q, C)"""
     sc = torch.maximum(x.abs().amax(-1), y.abs().amax(-1)).clamp_min(1e-300)
     return (x - y).abs().amax(-1) / sc
+
+
+# ------------------------------------------------------------------------------------------ contour integral quadrature
+
+def spectral(K):
+    """dense K^(1/2), K^(-1/2), K^(-1) by torch.linalg.eigh (float64)"""
+    w, v = torch.linalg.eigh(K)
+    f = lambda d: (v * d.unsqueeze(-2)) @ v.mT
+    return w, f(w.sqrt()), f(w.rsqrt()), f(1.0 / w)
+
+
+def relerr(a, b):
+    return float((a - b).norm() / b.norm().clamp_min(1e-300))
+
+
+def ciq_in_scope(spec):
+    """the property scopes the quadrature identities to sizes <= 20 or condition number <= 1e2"""
+    return spec["n"] <= 20 or float(spec["kappa"]) <= 1e2
+
+
+def quad_bound(spec, nq):
+    """theoretical accuracy of the Hale-Higham-Trefethen rule, exp(-2 pi^2 N / (ln kappa + 6)), with a factor 30
+    (measured ratio <= 8)"""
+    return 30.0 * math.exp(-2.0 * math.pi ** 2 * nq / (math.log(max(float(spec["kappa"]), 1.0)) + 6.0))
+
+
+def ciq_bounds(spec, tol, nq=15):
+    """(bound on the root / inverse errors, bound on the shifted-equation residuals, bound on the scalar rule).
+    Support only: MINRES convergence and quadrature accuracy are not proved.  Measured on the unchanged tree
+    (design_notes/C11.md): root <= 4e-5 at the default minres_tolerance 1e-4, <= 7e-8 at 1e-10; rule <= 2e-6
+    at the default 15 nodes."""
+    tight = tol <= 1e-8
+    qb = quad_bound(spec, nq)
+    return max(1e-5 if tight else 1e-3, qb), (1e-5 if tight else 2e-3), max(1e-5, qb)
+
+
+def ciq_direct_pred(spec, K, rhs, out, tol, nq=15):
+    """contour_integral_quad(op, rhs, inverse): shifted equations, weighted sum = K^(-+1/2) rhs, no-shift solve, scalar rule"""
+    solves, weights, no_shift, shifts = out
+    fails = []
+    n = spec["n"]
+    Nq = solves.shape[0]
+    batch = torch.broadcast_shapes(K.shape[:-2], rhs.shape[:-2])
+    Kb = K.expand(*batch, n, n)
+    rb = rhs.expand(*batch, n, rhs.shape[-1])
+    w, Ksq, Kisq, Kinv = spectral(Kb)
+    b_root, b_eq, b_rule = ciq_bounds(spec, tol, nq)
+    if list(solves.shape) != [Nq] + list(batch) + [n, rhs.shape[-1]] or list(shifts.shape) != [Nq + 1] + list(batch) \
+            or list(no_shift.shape) != list(batch) + [n, rhs.shape[-1]] or list(weights.shape) != [Nq] + list(batch) + [1, 1]:
+        return [("shape", "contour_integral_quad output shapes %s %s %s %s" % (list(solves.shape), list(weights.shape),
+                                                                                list(no_shift.shape), list(shifts.shape)))]
+    if not ciq_in_scope(spec):
+        return fails
+    res = (solves * weights).sum(0)
+    target = (Kisq if spec["inverse"] else Ksq) @ rb
+    e = relerr(res, target)
+    if not e <= b_root:
+        fails.append(("root", "(solves * weights).sum(0) differs from K^(%s1/2) rhs by %.3g (rel., bound %.1g)" % ("-" if spec["inverse"] else "", e, b_root)))
+    e = relerr(no_shift, -(Kinv @ rb))
+    if not e <= b_eq:
+        fails.append(("no-shift", "no_shift_solves differs from -K^-1 rhs by %.3g (rel.)" % e))
+    sol = solves if spec["inverse"] else None
+    if sol is not None:
+        r = shifts[1:].reshape(Nq, *batch, 1, 1) * sol - Kb.unsqueeze(0) @ sol - rb.unsqueeze(0)
+        e = float((r.norm(dim=-2) / rb.norm(dim=-2).clamp_min(1e-300)).max())
+        if not e <= b_eq:
+            fails.append(("shifted-eq", "a shifted solve has relative residual %.3g (bound %.1g)" % (e, b_eq)))
+    # scalar rule on the true eigenvalues
+    ws = weights.reshape(Nq, *batch, 1)
+    ss = shifts[1:].reshape(Nq, *batch, 1)
+    rule = ((ws / (ss - w.unsqueeze(0))).sum(0) * w.sqrt() - 1.0).abs().max()
+    if not float(rule) <= b_rule:
+        fails.append(("rule", "scalar quadrature rule sum_q w_q/(s_q - lambda) lambda^(1/2) deviates from 1 by %.3g on an eigenvalue" % float(rule)))
+    return fails
+
+
+def sim_pred(spec, K, rhs, lhs, out, twice, tol, nq=15):
+    """op.sqrt_inv_matmul(rhs[, lhs]) and, without lhs, applying it twice"""
+    fails = []
+    n = spec["n"]
+    batch = torch.broadcast_shapes(K.shape[:-2], rhs.shape[:-2])
+    Kb = K.expand(*batch, n, n)
+    rb = rhs.expand(*batch, n, rhs.shape[-1])
+    w, Ksq, Kisq, Kinv = spectral(Kb)
+    b_root, _, _ = ciq_bounds(spec, tol, nq)
+    if lhs is None:
+        res = out
+        exp_shape = list(batch) + [n, rhs.shape[-1]]
+        if list(res.shape) != exp_shape:
+            return [("shape", "sqrt_inv_matmul output shape %s, expected %s" % (list(res.shape), exp_shape))]
+        if not ciq_in_scope(spec):
+            return fails
+        e = relerr(res, Kisq @ rb)
+        if not e <= b_root:
+            fails.append(("root", "sqrt_inv_matmul(rhs) differs from K^(-1/2) rhs by %.3g (rel., bound %.1g)" % (e, b_root)))
+        if twice is not None:
+            e = relerr(twice, Kinv @ rb)
+            if not e <= 3 * b_root:
+                fails.append(("twice", "sqrt_inv_matmul applied twice differs from K^-1 rhs by %.3g (rel., bound %.1g)" % (e, 3 * b_root)))
+    else:
+        res, iq = out
+        lb = lhs.expand(*batch, lhs.shape[-2], n)
+        if list(res.shape) != list(batch) + [lhs.shape[-2], rhs.shape[-1]] or list(iq.shape) != list(batch) + [lhs.shape[-2]]:
+            return [("shape", "sqrt_inv_matmul(rhs, lhs) output shapes %s %s" % (list(res.shape), list(iq.shape)))]
+        if not ciq_in_scope(spec):
+            return fails
+        e = relerr(res, lb @ Kisq @ rb)
+        if not e <= b_root:
+            fails.append(("root", "sqrt_inv_matmul(rhs, lhs)[0] differs from L K^(-1/2) R by %.3g (rel.)" % e))
+        e = relerr(iq, torch.diagonal(lb @ Kinv @ lb.mT, dim1=-2, dim2=-1))
+        if not e <= b_root:
+            fails.append(("inv-quad", "sqrt_inv_matmul(rhs, lhs)[1] differs from diag(L K^-1 L^T) by %.3g (rel.)" % e))
+    return fails
+
+
+def sample_pred(spec, K, samples, tol, nq=15):
+    """base samples = unit vectors: sample k is the k-th column of the square root applied; sum_k s_k s_k^T = K"""
+    n = spec["n"]
+    batch = tuple(K.shape[:-2])
+    if list(samples.shape) != [n] + list(batch) + [n]:
+        return [("shape", "zero_mean_mvn_samples shape %s" % list(samples.shape))]
+    if not ciq_in_scope(spec):
+        return []
+    b_root, _, _ = ciq_bounds(spec, tol, nq)
+    Sm = samples.permute(*range(1, len(batch) + 1), 0, len(batch) + 1)      # (*batch, k, n): rows are samples
+    cov = Sm.mT @ Sm
+    e = relerr(cov, K)
+    if not e <= 3 * b_root:
+        return [("covariance", "ciq samples from unit base samples have sum_k s_k s_k^T differing from K by %.3g (rel.)" % e)]
+    return []
